@@ -671,7 +671,11 @@ class _G:
     if not any(x.startswith("w") for x in pieces) and not (pieces and all(x.strip(" \t\n") == "" for x in pieces)):
       pieces.append(self.word())        # the comparators identify text nodes by their (unique) non-white-space content
     t = "".join(pieces)
-    return {"kind": "text", "text": t if t else self.word()}
+    out = {"kind": "text", "text": t if t else self.word()}
+    if self.chance(0.04):
+      # an XML comment or processing instruction inside the character data: not content, the text node stays one node
+      out["cm"] = (self.d(st.integers(0, len(out["text"]))), self.d(st.sampled_from(["<!-- note -->", "<?vt-pi x?>", "<!---->"])))
+    return out
 
   # -------------------------------------------------------------------------------- elements
   def blank(self, kind):
@@ -852,6 +856,10 @@ def fix_timing(n, parent_tc, sync, prof):
     else:
       if not (k["kind"] == "text" and tc == "seq"):
         ends.append(ke)
+  if n["sets"] and n["dur"] is None and n["end"] is None and n["kind"] != "region" and (tc == "seq" or all(e is not None for e in ends)):
+    # whether set children extend the implicit duration of their parent (they do in SMIL, and in the reader) is not asserted:
+    # an element with set children whose implicit duration would otherwise be definite gets an explicit dur
+    n["dur"] = n["spare"]
   for stp in n["sets"]:
     ends.append(_set_iv(stp)[1])
   if tc == "seq":
@@ -1069,6 +1077,9 @@ class _X:
 
   def elem(self, n):
     if n["kind"] == "text":
+      if n.get("cm"):
+        pos, markup = n["cm"]
+        return esc_text(n["text"][:pos]) + markup + esc_text(n["text"][pos:])
       return esc_text(n["text"])
     pairs = [("id", "xml:id", n["id"])]
     if n["ruby"] is not None:
@@ -1374,6 +1385,8 @@ def to_docspec(desc, info=None):
     tc = n["tc"] or "par"
     for i, k in enumerate(n["kids"]):
       if k["kind"] == "text":
+        if k.get("cm"):
+          feat.add("comment-or-pi-in-text")
         if tc == "seq" or timing.text_iv.get((n["id"], i)) is None:
           feat.add("text-in-seq")
           continue
